@@ -100,6 +100,7 @@ impl GenCfg {
 
 pub struct Gen {
     pub cfg: GenCfg,
+    pub max_size: usize,
     /// items[k] = all single items (leaf or branch) of size k (trees excluded: positional)
     items: Vec<Vec<Node>>,
     /// all[k] = all canonical sub-expression sequences of size exactly k
@@ -119,7 +120,7 @@ impl Gen {
     /// Prepares memo tables so that sequences up to `max_size` can be enumerated. Branch bodies
     /// need sequences up to `max_size - 1`, which are stored.
     pub fn new(cfg: GenCfg, max_size: usize) -> Gen {
-        let mut g = Gen { cfg, items: vec![vec![]], all: vec![vec![]] };
+        let mut g = Gen { cfg, max_size, items: vec![vec![]], all: vec![vec![]] };
         for k in 1..=max_size {
             // items of size k
             let mut items = vec![];
@@ -143,6 +144,11 @@ impl Gen {
                         }
                     }
                 }
+            }
+            if k == max_size && k > 1 {
+                // the largest items can only occur as the sole item of a sequence: they are
+                // streamed by `for_each_top_item` instead of being stored
+                items = vec![];
             }
             g.items.push(items);
             if k < max_size {
@@ -185,10 +191,61 @@ impl Gen {
         }
     }
 
+    /// Number of independent chunks `for_each_top_item` can be split into.
+    pub fn top_item_chunks(&self) -> usize {
+        if self.max_size < 2 {
+            0
+        }
+        else {
+            self.all[self.max_size - 1].len().max(1)
+        }
+    }
+
+    /// Streams the sequences that consist of ONE item of the maximal size (an alternation or a
+    /// repetition): chunk `i` covers the items whose first branch / body is
+    /// `all[max_size - 1][i]`, plus (in chunk 0) the alternations with more than one branch.
+    pub fn for_each_top_item(&self, chunk: usize, f: &mut dyn FnMut(&Seq)) {
+        let k = self.max_size;
+        if k < 2 {
+            return;
+        }
+        let emit = |node: Node, f: &mut dyn FnMut(&Seq)| {
+            let s = vec![node];
+            if is_canonical(&s) {
+                f(&s);
+            }
+        };
+        if let Some(body) = self.all[k - 1].get(chunk) {
+            if self.cfg.alts {
+                emit(Node::new(Kind::Alt(vec![body.clone()])), f);
+            }
+            if self.cfg.reps {
+                for b in &self.cfg.bounds {
+                    emit(Node::new(Kind::Rep { body: body.clone(), bounds: b.clone() }), f);
+                }
+            }
+        }
+        if chunk == 0 && self.cfg.alts {
+            for nb in 2..=self.cfg.max_alt {
+                let mut items = vec![];
+                let mut sizes = vec![0usize; nb];
+                self.alt_sizes(k - 1, 0, &mut sizes, &mut items);
+                for it in items {
+                    emit(it, f);
+                }
+            }
+        }
+    }
+
     /// Calls `f` for every canonical sequence of size exactly `size`.
     pub fn for_each_exact(&self, size: usize, f: &mut dyn FnMut(&Seq)) {
         let mut cur: Seq = vec![];
         self.extend(size, &mut cur, f);
+        if size == self.max_size {
+            for c in 0..self.top_item_chunks() {
+                self.for_each_top_item(c, f);
+            }
+        }
     }
 
     /// All possible first items (with their size) for sequences of total size `size`.
@@ -531,18 +588,17 @@ mod tests {
         }
         eprintln!("total {}", total);
         // firsts-based enumeration agrees
-        let mut m = 0usize;
-        for f in g.firsts(4) {
-            g.for_each_from(4, &f, &mut |_| m += 1);
-        }
         let mut n4 = 0;
         g.for_each_exact(4, &mut |_| n4 += 1);
-        assert_eq!(m, n4);
         let mut m2 = 0usize;
         for t in g.tasks(4) {
             g.for_each_with_prefix(4, &t, &mut |_| m2 += 1);
         }
+        for c in 0..g.top_item_chunks() {
+            g.for_each_top_item(c, &mut |_| m2 += 1);
+        }
         assert_eq!(m2, n4);
+        assert_eq!(n4, 240071);
     }
 }
 
